@@ -66,6 +66,7 @@ var c16Templates = []string{
 	` "s" `,
 	`-12.0E-1`,
 	`{"a":"😀","b":false}`,
+	`[{"k" : {"n" :[1 ,2]}}]`,
 }
 
 // H_C16_Template: a well-formed template with k unconstrained bytes inserted at (mode 0) or overwriting from
